@@ -4,8 +4,8 @@ import std
 
 SPEC = {
     'prop_files': ['theories/Properties/C10_cbor.v'],
-    'coq_targets': ['theories/Properties/C10_cbor.vo', 'theories/Wire/CborProofs.vo', 'theories/Wire/CborEnc.vo', 'theories/Wire/CborDepth.vo', 'theories/Wire/CborTotal.vo', 'theories/Wire/CborDepthErr.vo', 'theories/Wire/CborCorr.vo'],
-    'closure_dirs': ['theories/Wire/Cbor.v', 'theories/Wire/CborFloat.v', 'theories/Wire/CborProofs.v', 'theories/Wire/CborEnc.v', 'theories/Wire/CborDepth.v', 'theories/Wire/CborTotal.v', 'theories/Wire/CborDepthErr.v', 'theories/Wire/CborCorr.v', 'theories/C10/CborConv.v',
+    'coq_targets': ['theories/Properties/C10_cbor.vo', 'theories/Wire/CborProofs.vo', 'theories/Wire/CborTime.vo', 'theories/Wire/CborEnc.vo', 'theories/Wire/CborDepth.vo', 'theories/Wire/CborTotal.vo', 'theories/Wire/CborDepthErr.vo', 'theories/Wire/CborCorr.vo'],
+    'closure_dirs': ['theories/Wire/Cbor.v', 'theories/Wire/CborFloat.v', 'theories/Wire/CborProofs.v', 'theories/Wire/CborTime.v', 'theories/Wire/CborEnc.v', 'theories/Wire/CborDepth.v', 'theories/Wire/CborTotal.v', 'theories/Wire/CborDepthErr.v', 'theories/Wire/CborCorr.v', 'theories/C10/CborConv.v',
                      'theories/C10/CborSpec.v', 'theories/Wire/Item.v', 'theories/Base/Outcome.v', 'theories/Gen/Consts.v'],
     'harness': 'wirecbor',
     'args': {
